@@ -42,6 +42,13 @@ CHECKS["C15"] = dict(level="model_checking", design="DESIGN.md §6 C15, §3.1 Re
          "Go's regexp compiled from the requested pattern. The verdict depends only on returned answers and on KeyIsSource of the real cache.",
     note="Trusted: Go regexp as fact oracle; gate hooks mark the protocol steps. A tree that changes the protocol is still checked through returned answers (schedule marked unreplayable).")
 
+CHECKS["C04"] = dict(level="model_checking", design="DESIGN.md §6 C04, §3.1 Pools/ValidatorTree, §2.2 poisoning, §4.3",
+    technique="explicit TLA+ life-cycle model ValidatorTree.tla checked exhaustively by TLC; TLC-enumerated call histories executed on the real pools with redeemed objects poisoned; every call outcome compared with its alone/fresh reference; borrow/redeem streams of both pool builds validated by Trace_Pools.tla",
+    text="The borrow/construct/use/redeem protocol is model-checked for all behaviours of 1-2 goroutines with every early exit and arbitrary sync.Pool behaviour (NoDup, Exclusive, no use after redeem / stale read). "
+         "Bound to the code by (a) executing every call sequence of length <= 2 (quick) / 3 (thorough) and long seeded histories with poisoning on, requiring each outcome to equal the same call alone with "
+         "nothing pooled, and (b) validating the recorded pool events of the production pools (redeem hook; borrow inferred from the poison image) and of the debug pools (borrow + redeem hooks) against the monitor.",
+    note="Reference outcome = same code in fresh mode (redeem hook drops every object). sync.Pool scheduling is not controllable; reuse maximised (GC off, 1 OS thread) and also run with 4 threads. Poisoner is trusted.")
+
 NOT_YET = {}
 
 
